@@ -387,8 +387,10 @@ def fabric_allowed(sc):
   script = sc.info["script"]
   if script == "late-subscriber":
     return {"q0": [[e[0], e[1]]], "q1": [[e[1]], [e[0], e[1]]]}
-  if script in ("resubscribe", "resubscribe-during-delivery"):
+  if script == "resubscribe":
     return {"q0": [[e[0], e[1]]], "q1": [[e[0], e[1]]]}
+  if script == "resubscribe-during-delivery":
+    return {"q0": [[e[0]]], "q1": [[e[0]]]}
   if script == "priorities":
     ok = [list(p) for p in itertools.permutations([e[3], e[0], e[1]]) if p.index(e[0]) < p.index(e[1])]
     return {"q0": ok, "q1": [[]]}
